@@ -1,0 +1,36 @@
+//go:build verif
+
+package ed25519
+
+import (
+	"github.com/cloudflare/pat-go/ed25519/internal/edwards25519"
+	. "github.com/cloudflare/pat-go/internal/vspec"
+)
+
+var _ = edwards25519.EdL
+
+// specBlindScalar: the blinding factor SHA-512(blind || 0x00 || context)[0:32] reduced mod L.
+//
+//@ spec
+func specBlindScalar(blind, context string) Mathint {
+	return edwards25519.LE(SHA512(blind + B1(0) + context)[:32]) % edwards25519.EdL()
+}
+
+//@ func BlindPublicKeyWithContext(publicKey PublicKey, blind []byte, context []byte) (res PublicKey, err error)
+//@ props C03 C15 C16 C17
+//@ let pk = string(publicKey)
+//@ let r = specBlindScalar(string(blind), string(context))
+//@ ensures (err == nil) == (len(publicKey) == 32 && edwards25519.EdDecOK(string(publicKey)))
+//@ ensures err == nil ==> string(res) == edwards25519.EdMul(r, edwards25519.EdCanon(pk)) && fresh(res)
+//@ assigns none
+//@ end
+
+//@ func UnblindPublicKeyWithContext(publicKey PublicKey, blind []byte, context []byte) (res PublicKey, err error)
+//@ props C03 C15 C16 C17
+//@ requires specBlindScalar(string(blind), string(context)) != 0
+//@ let pk = string(publicKey)
+//@ let rInv = ModInv(specBlindScalar(string(blind), string(context)), edwards25519.EdL())
+//@ ensures (err == nil) == (len(publicKey) == 32 && edwards25519.EdDecOK(string(publicKey)))
+//@ ensures err == nil ==> string(res) == edwards25519.EdMul(rInv, edwards25519.EdCanon(pk)) && fresh(res)
+//@ assigns none
+//@ end
